@@ -21,6 +21,12 @@ func kindsPool() []string { return []string{"schema", "schema", "schema", "param
 
 func genDoc(t *rapid.T, c *Case) {
 	doc, src := specdoc.Base(t, false)
+	if defs, ok := doc["definitions"].(map[string]any); ok && rapid.IntRange(0, 2).Draw(t, "reqvia") == 0 {
+		// a required name that is only declared by the definition its additionalProperties refers to
+		defs["ReqTarget"] = map[string]any{"type": "object", "properties": map[string]any{"viaName": map[string]any{"type": "string"}}}
+		defs["ReqVia"] = map[string]any{"type": "object", "required": []any{"zeta", "viaName", "alpha"}, "properties": map[string]any{"zeta": map[string]any{"type": "string"}, "alpha": map[string]any{"type": "string"}},
+			"additionalProperties": map[string]any{"$ref": "#/definitions/ReqTarget"}}
+	}
 	n := rapid.SampledFrom([]int{0, 0, 1, 2}).Draw(t, "nmut")
 	for i := 0; i < n; i++ {
 		gen.Mutate(t, doc)
